@@ -18,12 +18,17 @@ STAR == "*/*"
 (*   upper   t in upper case             upperparams  both                 *)
 (*   badparam  t followed by a malformed parameter ("t; charset")          *)
 (*   garbage   no media type can be recovered ("/", "a/b/c", ";;")         *)
-(* cfg = [reg (set of media types with a consumer), star, default]         *)
+(* cfg = [reg (set of media types with a consumer), star, default,         *)
+(*        defForm: how Runtime.DefaultMediaType spells that type:          *)
+(*        plain | params ("t; charset=utf-8") | upper ("T")]               *)
 (***************************************************************************)
 Forms == {"absent", "empty", "plain", "params", "upper", "upperparams", "badparam", "garbage"}
 WellFormed(h) == h.form \notin {"badparam", "garbage"}
 
-\* the media type the response denotes (parameters and case ignored; the default type when the header is absent/empty)
+DefForms == {"plain", "params", "upper"}
+
+\* the media type the response denotes (parameters and case ignored; the default type when the header is absent/empty -
+\* however DefaultMediaType spells it: the same normalisation applies to both sources)
 MediaType(cfg, h) == IF h.form \in {"absent", "empty"} THEN cfg.default ELSE h.t
 
 \* faithful: ct == "" -> DefaultMediaType; mime.ParseMediaType (any error is fatal: MalformedHeaderIsAnError);
@@ -34,6 +39,13 @@ CodePick(cfg, h) ==
        IF mt \in cfg.reg THEN [kind |-> "consumer", id |-> mt, names_ct |-> FALSE, parse |-> FALSE]
        ELSE IF cfg.star THEN [kind |-> "consumer", id |-> STAR, names_ct |-> FALSE, parse |-> FALSE]
        ELSE [kind |-> "err", id |-> "", names_ct |-> TRUE, parse |-> FALSE]
+
+\* mutant (must violate PickAllowed): the default is used verbatim as registry key, without mime.ParseMediaType
+VerbatimDefaultPick(cfg, h) ==
+  IF h.form \in {"absent", "empty"} /\ cfg.defForm # "plain"
+  THEN (IF cfg.star THEN [kind |-> "consumer", id |-> STAR, names_ct |-> FALSE, parse |-> FALSE]
+        ELSE [kind |-> "err", id |-> "", names_ct |-> TRUE, parse |-> FALSE])
+  ELSE CodePick(cfg, h)
 
 \* declarative: what the statement fixes.  For a malformed header the statement does not say which media type it
 \* denotes: an error is allowed, and so is the consumer of the recoverable type / the catch-all - never another one.
@@ -49,6 +61,21 @@ PickAllowed(cfg, h, o) ==
 
 \* per-operation client / context take precedence over the transport-wide ones
 UsedClient(opClient) == IF opClient THEN "op" ELSE "rt"
+
+\* The client lattice, observed on the wire.  op client: none | bare (no Transport, no Jar) | transport (own Transport
+\* only) | jar (own Jar only) | full;  runtime: Transport default | marker (a RoundTripper that marks every request),
+\* Jar holding a cookie for the host or none.  A per-operation client is used exactly as given: a nil Transport means
+\* http.DefaultTransport, a nil Jar means no cookies - nothing of the runtime's is mixed in.
+OpClientKinds == {"none", "bare", "transport", "jar", "full"}
+CodeClient(opc) == IF opc # "none" THEN "op" ELSE "rt"          \* runtime.go:485-490
+WireSeen(chosen, opc, rtMarker, rtJar) ==
+  [ rt_marker |-> chosen = "rt" /\ rtMarker, op_marker |-> chosen = "op" /\ opc \in {"transport", "full"},
+    rt_cookie |-> chosen = "rt" /\ rtJar,    op_cookie |-> chosen = "op" /\ opc \in {"jar", "full"} ]
+WireAllowed(opc, rtMarker, rtJar, seen) == seen = WireSeen(IF opc # "none" THEN "op" ELSE "rt", opc, rtMarker, rtJar)
+\* mutant (must violate): unset Transport / Jar of the operation client are filled in from the runtime
+DefaultedWireSeen(opc, rtMarker, rtJar) ==
+  [ rt_marker |-> rtMarker /\ opc \in {"none", "bare", "jar"}, op_marker |-> opc \in {"transport", "full"},
+    rt_cookie |-> rtJar /\ opc \in {"none", "bare", "transport"}, op_cookie |-> opc \in {"jar", "full"} ]
 
 \* The caller's context.  op  : nil | background (context.Background() itself) | todo | value (derived, carries the
 \*                              operation marker) | cancelled (derived from "value", already cancelled)
@@ -78,7 +105,10 @@ CtxAllowed(op, rt, seen) ==
 (* OnceIsNilCheck = TRUE models `if r.client == nil { r.client = new }`    *)
 (* (check and assignment are two steps): the mutant the property excludes. *)
 (***************************************************************************)
-CONSTANTS NCallers, OnceIsNilCheck
+(* Every call hands its reader a response object of its own (`wrap`): a    *)
+(* reader may keep it beyond the call.  RecyclesWrappers = TRUE models a   *)
+(* pool that takes the wrapper back when the reader returns (mutant).      *)
+CONSTANTS NCallers, OnceIsNilCheck, RecyclesWrappers
 
 Callers == 1..NCallers
 
@@ -90,7 +120,10 @@ BInit == [ pc     |-> [i \in Callers |-> "params"],
            got    |-> [i \in Callers |-> 0],
            client |-> 0,                           \* generation of the shared client (0 = nil)
            inits  |-> 0,
-           onceDone |-> FALSE, onceBusy |-> FALSE ]
+           onceDone |-> FALSE, onceBusy |-> FALSE,
+           wrap   |-> [i \in Callers |-> 0],       \* the response object handed to (and kept by) caller i's reader
+           slots  |-> [k \in Callers |-> 0],       \* response objects: the token of the response they show
+           free   |-> {} ]                         \* objects back in the pool
 
 BNext(b, i) ==
   CASE b.pc[i] = "params" -> { [b EXCEPT !.pc[i] = "once", !.req[i] = i] }
@@ -105,12 +138,20 @@ BNext(b, i) ==
     [] b.pc[i] = "send" -> { [b EXCEPT !.pc[i] = "recv", !.using[i] = b.client,
                                        !.wire = @ \cup {[from |-> i, token |-> b.req[i]]}] }
     [] b.pc[i] = "recv" ->     \* the transport answers each request on its own exchange, echoing its token
-         { [b EXCEPT !.pc[i] = "read", !.inbox[i] = m.token, !.wire = @ \ {m}] : m \in { x \in b.wire : x.from = i } }
-    [] b.pc[i] = "read" -> { [b EXCEPT !.pc[i] = "done", !.got[i] = b.inbox[i]] }
+         \* newResponse: a fresh object (the first unused one), or one from the pool
+         LET fresh == CHOOSE k \in Callers : b.slots[k] = 0 /\ \A j \in Callers : (j < k => b.slots[j] # 0)
+             cands == IF RecyclesWrappers /\ b.free # {} THEN b.free ELSE {fresh} IN
+         { [b EXCEPT !.pc[i] = "read", !.inbox[i] = m.token, !.wire = @ \ {m},
+                     !.wrap[i] = k, !.slots[k] = m.token, !.free = @ \ {k}]
+           : m \in { x \in b.wire : x.from = i }, k \in cands }
+    [] b.pc[i] = "read" -> { [b EXCEPT !.pc[i] = "done", !.got[i] = b.slots[b.wrap[i]],
+                                       !.free = IF RecyclesWrappers THEN @ \cup {b.wrap[i]} ELSE @] }
     [] OTHER -> {}
 
 \* each caller receives the response to its own request
 OwnResponse(b) == \A i \in Callers : b.pc[i] = "done" => b.got[i] = b.req[i] /\ b.got[i] = i
+\* a response kept by its reader keeps showing that caller's response, whatever calls follow
+RetainedIntact(b) == \A i \in Callers : b.pc[i] = "done" => b.slots[b.wrap[i]] = i
 \* the shared client is created exactly once and nobody sends with a nil or a superseded client
 OneClient(b)   == b.inits <= 1 /\ \A i \in Callers : b.pc[i] \in {"recv", "read", "done"} => b.using[i] = 1
 
